@@ -30,6 +30,10 @@ Fixpoint dropf (sk : list seg) : list seg :=
   | g :: r => g :: dropf r
   end.
 
+(* the documented output with or without the removal of the template's final line break *)
+Definition spec_trim_k (keep trim lstrip : bool) (sk : list seg) : str :=
+  if keep then spec_go0 trim lstrip LStart sk else spec_trim trim lstrip [] sk.
+
 Definition hd_text (sk : list seg) : str := match sk with Text s :: _ => s | _ => [] end.
 Definition tl_text (sk : list seg) : list seg := match sk with Text _ :: r => r | _ => sk end.
 Definition is_text (g : seg) : bool := match g with Text _ => true | _ => false end.
@@ -42,8 +46,6 @@ Section Skel.
   Let bs := c_bs c. Let be := c_be c. Let vs := c_vs c. Let ve := c_ve c. Let cs := c_cs c. Let ce := c_ce c.
 
   (* ---------------- the local facts about the configuration *)
-  Hypothesis H_nl : c_nlseq c = [10].
-  Hypothesis H_keep : c_keep c = false.
   Hypothesis H_cfg_ok : cfg_ok c = true.
   Hypothesis H_txt13 : forall x, txt x = true -> (x =? 13) = false.
   Hypothesis H_no13 : no13 bs && no13 be && no13 vs && no13 ve && no13 cs && no13 ce = true.
@@ -517,23 +519,46 @@ Section Skel.
   Qed.
 
   (* ---------------- the theorem *)
-  Theorem skel_render : forall sk, skel_wf txt sk = true ->
-    render_data c (unparse c sk) = Some (spec_trim trim lstrip [] sk).
+  Lemma nl_subst_app : forall seq a b, nl_subst seq (a ++ b) = nl_subst seq a ++ nl_subst seq b.
   Proof.
-    intros sk Hwf. unfold render_data, tokeniter. rewrite H_keep. unfold normalize.
-    assert (Hseg : forallb (seg_wf txt) sk = true) by (unfold skel_wf in Hwf; apply andb_true_iff in Hwf as [H _]; exact H).
-    rewrite (nl_replace_fix _ (no13_unparse sk Hseg)), (unparse_dropf sk Hwf).
-    pose proof (skel_reach (length (dropf sk)) (dropf sk) (le_n _) (wf_dropf sk Hwf) LStart None) as HL.
-    cbn [ls_ctx right_rule] in HL. rewrite <- unparse_hd_tl in HL.
-    destruct (HL 1 0) as (f & its & Hrun & Hd).
-    unfold tokeniter_norm.
-    destruct (run c (compile_rules c) (fuel_for (unparse c (dropf sk))) SRoot [] 1 0 None true (unparse c (dropf sk))) as [its' e'] eqn:Er.
+    intros seq a b. induction a as [|x a IH]; [reflexivity|]. cbn [app nl_subst].
+    destruct (x =? 10); rewrite IH; [rewrite app_assoc|]; reflexivity.
+  Qed.
+
+  Lemma data_of_seq : forall seq its, data_of seq its = nl_subst seq (data_of [10] its).
+  Proof.
+    intros seq its. induction its as [|i r IH]; [reflexivity|].
+    destruct i as [ln ty v p|g w]; cbn [data_of]; [|exact IH].
+    destruct ty; try exact IH. rewrite nl_subst_app, nl_subst_id, IH. reflexivity.
+  Qed.
+
+  Lemma Lex_run : forall s d, Lex c SRoot None true s d ->
+    exists its, tokeniter_norm c s = LexOk its /\ data_of [10] its = d.
+  Proof.
+    intros s d HL. destruct (HL 1 0) as (f & its & Hrun & Hd). exists its. split; [|exact Hd]. unfold tokeniter_norm.
+    destruct (run c (compile_rules c) (fuel_for s) SRoot [] 1 0 None true s) as [its' e'] eqn:Er.
     destruct (cfg_ok_rules c H_cfg_ok) as (Hr & Hb).
     assert (He' : e' <> EFuel).
     { intros ->. eapply run_fuel; [exact Hr|exact Hb| |exact Er]. unfold mu, fuel_for. lia. }
-    pose proof (run_mono _ _ _ (Nat.max f (fuel_for (unparse c (dropf sk)))) _ _ _ _ _ _ _ _ _ (Nat.le_max_l _ _) Hrun ltac:(discriminate)) as R1.
-    pose proof (run_mono _ _ _ (Nat.max f (fuel_for (unparse c (dropf sk)))) _ _ _ _ _ _ _ _ _ (Nat.le_max_r _ _) Er He') as R2.
-    rewrite R1 in R2. injection R2 as <- <-.
-    rewrite H_nl, Hd. unfold spec_trim. rewrite spec_go_dropf. reflexivity.
+    pose proof (run_mono _ _ _ (Nat.max f (fuel_for s)) _ _ _ _ _ _ _ _ _ (Nat.le_max_l _ _) Hrun ltac:(discriminate)) as R1.
+    pose proof (run_mono _ _ _ (Nat.max f (fuel_for s)) _ _ _ _ _ _ _ _ _ (Nat.le_max_r _ _) Er He') as R2.
+    rewrite R1 in R2. injection R2 as <- <-. reflexivity.
+  Qed.
+
+  (* every skeleton, every newline_sequence, both keep_trailing_newline settings *)
+  Theorem skel_render : forall sk, skel_wf txt sk = true ->
+    render_data c (unparse c sk) = Some (nl_subst (c_nlseq c) (spec_trim_k (c_keep c) trim lstrip sk)).
+  Proof.
+    intros sk Hwf. unfold render_data, tokeniter, normalize.
+    assert (Hseg : forallb (seg_wf txt) sk = true) by (unfold skel_wf in Hwf; apply andb_true_iff in Hwf as [H _]; exact H).
+    rewrite (nl_replace_fix _ (no13_unparse sk Hseg)). unfold spec_trim_k. destruct (c_keep c).
+    - pose proof (skel_reach (length sk) sk (le_n _) Hwf LStart None) as HL.
+      cbn [ls_ctx right_rule] in HL. rewrite <- unparse_hd_tl in HL.
+      destruct (Lex_run _ _ HL) as (its & -> & Hd). rewrite data_of_seq, Hd. reflexivity.
+    - rewrite (unparse_dropf sk Hwf).
+      pose proof (skel_reach (length (dropf sk)) (dropf sk) (le_n _) (wf_dropf sk Hwf) LStart None) as HL.
+      cbn [ls_ctx right_rule] in HL. rewrite <- unparse_hd_tl in HL.
+      destruct (Lex_run _ _ HL) as (its & -> & Hd). rewrite data_of_seq, Hd.
+      unfold spec_trim. rewrite spec_go_dropf. reflexivity.
   Qed.
 End Skel.
